@@ -23,7 +23,8 @@ tvars == <<vars, l, bad, div, nsteps>>
 SetOf(t) == {t[i] : i \in DOMAIN t}
 ConvState(j) == [on |-> j.on, epoch |-> j.epoch, num |-> j.num, hid |-> j.hid, gl |-> j.gl,
                  vals |-> SetOf(j.vals), pend |-> SetOf(j.pend), rec |-> SetOf(j.rec), cons |-> SetOf(j.cons)]
-ConvEv(ev) == IF ev.act = "Init" THEN [ev EXCEPT !.vals = SetOf(@), !.pend = SetOf(@), !.rec = SetOf(@)]
+ConvEv(ev) == IF ev.act = "Export" THEN ev
+              ELSE IF ev.act = "Init" THEN [ev EXCEPT !.vals = SetOf(@), !.pend = SetOf(@), !.rec = SetOf(@)]
               ELSE [ev EXCEPT !.ext = [vals |-> SetOf(@.vals), mal |-> @.mal]]
 
 Lbl(f, detail) == [p |-> "C17", f |-> f, d |-> detail]
@@ -81,7 +82,13 @@ TraceStep ==
               h2  == HistAfter(st, hs, e, okR)
           IN /\ st' = s2 /\ hs' = h2
              /\ nsteps' = nsteps + 1
-             /\ IF e.act = "Init"
+             /\ IF e.act = "Export"   \* C16 for this client type: classes of store keys that differ after export + re-import
+                THEN /\ bad' = bad \cup {[tr |-> rec.tr, i |-> rec.i,
+                                           v |-> [p |-> "C16", f |-> "state_differs_after_export_import", d |-> rec.info.diff[k]]] :
+                                            k \in DOMAIN rec.info.diff}
+                                    \cup {[tr |-> rec.tr, i |-> rec.i, v |-> v] : v \in If(s2 # st, Lbl("store_changed_without_update", "Export"))}
+                     /\ div' = div
+                ELSE IF e.act = "Init"
                 THEN /\ bad' = bad
                      /\ div' = div \cup {[tr |-> rec.tr, i |-> rec.i, v |-> v] : v \in InitDivergence(e, okR, s2)}
                 ELSE /\ bad' = bad \cup {[tr |-> rec.tr, i |-> rec.i, v |-> v] : v \in Violations(e, okR, s2, h2)}
